@@ -5,7 +5,9 @@
 (* analysis under the race detector.  harness/cmd/taintrace runs           *)
 (* taint.Analyze on a program for every combination of report-summaries /  *)
 (* report-coverage / report-paths / summarize-on-demand under the          *)
-(* schedules free / hold / meet; checks/c20.py attaches to every run the   *)
+(* schedules free / hold / meet ("pre" = the harness's own pass through    *)
+(* the real state initialisation and summary worker pool, no report        *)
+(* option); checks/c20.py attaches to every run the                        *)
 (* race detector's reports printed while it ran.  One record per run in    *)
 (* tr_runs.ndjson:                                                         *)
 (*   key, prog, mode, sum, cov, paths, ondemand   the run                  *)
